@@ -45,11 +45,13 @@ def gen_cases(rng, n, ops=DENSE_OPS):
         # all variables share the first and the last time-stamp (what a past window sees before the common domain,
         # when one variable starts earlier than another, is not fixed by the property); interior break-points differ
         t0 = rng.choice([0, 0, 0, 1, 2]) if rng.random() < 0.3 else 0
+        if 0.15 <= r_ < 0.4:
+            end = max(end, 8)       # room for staircases; every variable of the case ends at the same time-stamp (DESIGN 3.2)
         for v in vs:
             w[v] = gen_signal(rng, rng.choice([1, 2, 3, 4, 6, 8]), t0=min(t0, end - 1), S=S, end=end)
             if 0.15 <= r_ < 0.4 and rng.random() < 0.6:
                 # staircases after an extreme value, many short levels (the sweeps discard several dominated intervals at once)
-                w[v] = gen_signal(rng, rng.choice([5, 6, 8, 9]), t0=min(t0, end - 1), S=S, end=max(end, 8), stair=True)
+                w[v] = gen_signal(rng, rng.choice([5, 6, 8, 9]), t0=min(t0, end - 1), S=S, end=end, stair=True)
         if diffstart and rng.random() < 0.5:
             # shaped: an unbounded past operator over the signal that begins first, combined with a signal that begins later
             e_, l_ = rng.sample(vs, 2)
@@ -70,6 +72,8 @@ def gen_cases(rng, n, ops=DENSE_OPS):
             for v in late:
                 w[v] = gen_signal(rng, rng.choice([1, 2, 3, 4]), t0=rng.choice([1, 2, 3]), S=S, end=end)
         fac = rng.choice(["StlDenseTimeSpecification", "StlDenseTimeOfflineSpecification"])
+        if len({w[v][-1][0] for v in vs}) != 1:
+            raise core.Machinery("C04 generator: the signals of a case must end together (DESIGN 3.2): %r" % w)
         cases.append(case([ct_obj(phi, S, vs, factory=fac)], [ev_parse(), ev_ct("evaluate", w, flt=rng.random() < 0.5)], diffstart=diffstart))
     return cases
 
